@@ -822,6 +822,81 @@ theorem any_rejects_wrong_type {M : Type} (unmarshal : Url → Bytes → Option 
 theorem any_absent {M : Type} (unmarshal : Url → Bytes → Option M) (url : Option Url) :
     unmarshalAnyTo unmarshal url none = .ok (none : Option M) := rfl
 
+/-! ### the destination is not an input of the decoder
+
+`UnmarshalAnypbTo` is the one decoder of the registration channels that writes into a destination the
+caller supplies (everything else returns a fresh value). `unmarshalAnyInto merge decode expected src prior`
+is the call with `dst` holding `prior`; the code under test is `merge = false`. -/
+
+/-- **the result does not depend on what the destination held**: for every source, every expected type,
+every behaviour of the wire decoder and any two prior contents -/
+theorem decode_ignores_prior_destination (decode : Url → Bytes → Option Fields) (expected : Option Url)
+    (src : Option AnyMsg) (prior prior' : Fields) :
+    unmarshalAnyInto false decode expected src prior = unmarshalAnyInto false decode expected src prior' := rfl
+
+/-- … it is the function of the source alone that `unmarshalAnyTo` (the model the other theorems are
+about) describes -/
+theorem any_into_eq_any_to (decode : Url → Bytes → Option Fields) (expected : Option Url) (src : Option AnyMsg)
+    (prior : Fields) :
+    unmarshalAnyInto false decode expected src prior =
+      unmarshalAnyTo (fun u b => (decode u b).map (mergeFields [])) expected src := by
+  unfold unmarshalAnyInto unmarshalAnyTo unmarshalInto
+  cases restoreUrl expected src with
+  | ok r =>
+    cases r with
+    | none => rfl
+    | some a => simp only [Outcome.bind]; cases decode a.typeUrl a.value <;> rfl
+  | err e => rfl
+  | panic s => rfl
+  | hang => rfl
+
+theorem setField_append (f : Nat × Bytes) : ∀ (acc : Fields), (∀ g ∈ acc, g.1 < f.1) → setField acc f = acc ++ [f] := by
+  intro acc
+  induction acc with
+  | nil => intro _; rfl
+  | cons g rest ih =>
+    intro h
+    have hg := h g (by simp)
+    have h1 : ¬ f.1 < g.1 := by omega
+    have h2 : ¬ f.1 = g.1 := by omega
+    simp only [setField, h1, h2, if_false, List.cons_append]
+    rw [ih (fun g' h' => h g' (by simp [h']))]
+
+theorem mergeFields_canonical : ∀ (v acc : Fields), (acc ++ v).Pairwise (fun a b => a.1 < b.1) →
+    mergeFields acc v = acc ++ v := by
+  intro v
+  induction v with
+  | nil => intro acc _; simp [mergeFields]
+  | cons f t ih =>
+    intro acc h
+    have hlt : ∀ g ∈ acc, g.1 < f.1 := by
+      intro g hg
+      exact (List.pairwise_append.mp h).2.2 g hg f (by simp)
+    show mergeFields (setField acc f) t = acc ++ f :: t
+    rw [setField_append f acc hlt, ih (acc ++ [f]) (by simpa [List.append_assoc] using h)]
+    simp [List.append_assoc]
+
+/-- **round trip into any destination**: a message in canonical form (fields ascending, one per number)
+that the wire decoder reads back comes out of `UnmarshalAnypbTo` exactly, whatever the destination held
+before — also the empty message, which is encoded as no bytes at all -/
+theorem any_roundtrip_into (marshal : Fields → Bytes) (decode : Url → Bytes → Option Fields) (url : Url)
+    (hinv : ∀ m, decode url (marshal m) = some m) (m prior : Fields)
+    (hm : m.Pairwise (fun a b => a.1 < b.1)) :
+    unmarshalAnyInto false decode (some url) (some (eraseUrl ⟨url, marshal m⟩)) prior = .ok (some m) := by
+  unfold unmarshalAnyInto unmarshalInto
+  rw [restoreUrl_erase]
+  simp only [Outcome.bind, hinv, Option.map_some, Bool.false_eq_true, if_false]
+  rw [mergeFields_canonical m [] (by simpa using hm)]
+  rfl
+
+/-- the reset is what the theorems rest on: with `Merge: true` the empty parameter message decodes to
+whatever the destination held, and a field the value does not carry survives -/
+theorem decode_merge_depends_on_destination :
+    unmarshalAnyInto true (fun _ _ => some []) (some ['u']) (some ⟨[], []⟩) [(1, [3])] = .ok (some [(1, [3])]) ∧
+    unmarshalAnyInto false (fun _ _ => some []) (some ['u']) (some ⟨[], []⟩) [(1, [3])] = .ok (some []) ∧
+    unmarshalAnyInto true (fun _ _ => some [(4, [1])]) (some ['u']) (some ⟨[], [0x20, 1]⟩) [(1, [3]), (4, [0])] =
+      .ok (some [(1, [3]), (4, [1])]) := by decide
+
 /-! ## non-vacuity: the hypotheses are satisfiable, and the round trips are exercised on concrete data -/
 
 /-- a toy instance of the primitives: one key, representative `0…0`, CTR = xor with a constant,
